@@ -397,28 +397,45 @@ func earlierSameLoad(u *ssa.UnOp) ssa.Value {
 			idx = i
 		}
 	}
-	for i := idx - 1; i >= 0; i-- {
-		switch x := blk.Instrs[i].(type) {
-		case *ssa.UnOp:
-			if x.Op == token.MUL && x.X == u.X {
-				if r := earlierSameLoad(x); r != nil {
-					return r
+	// the same location: the same address value, or the same field of the same object computed twice
+	sameAddr := func(a, b ssa.Value) bool {
+		if a == b {
+			return true
+		}
+		fa, ok1 := strip(a).(*ssa.FieldAddr)
+		fb, ok2 := strip(b).(*ssa.FieldAddr)
+		return ok1 && ok2 && fa.Field == fb.Field && resolve(fa.X) == resolve(fb.X) && types.Identical(fa.X.Type(), fb.X.Type())
+	}
+	// backwards through this block and, while a block has a single predecessor, through its predecessors
+	for hops := 0; hops < 6; hops++ {
+		for i := idx - 1; i >= 0; i-- {
+			switch x := blk.Instrs[i].(type) {
+			case *ssa.UnOp:
+				if x.Op == token.MUL && sameAddr(x.X, u.X) {
+					if r := earlierSameLoad(x); r != nil {
+						return r
+					}
+					return x
 				}
-				return x
-			}
-		case *ssa.Store, *ssa.MapUpdate, *ssa.Send, *ssa.Go, *ssa.Defer, *ssa.Select, *ssa.RunDefers:
-			return nil
-		case *ssa.Call:
-			if _, isB := x.Common().Value.(*ssa.Builtin); !isB {
+			case *ssa.Store, *ssa.MapUpdate, *ssa.Send, *ssa.Go, *ssa.Defer, *ssa.Select, *ssa.RunDefers:
 				return nil
-			}
-			if bi := x.Common().Value.(*ssa.Builtin); bi.Name() == "copy" || bi.Name() == "append" || bi.Name() == "clear" || bi.Name() == "delete" {
-				// copy writes elements, not slice headers: a load of a slice header through a pointer is unaffected
-				// unless the destination aliases the memory holding the header, which a []byte destination cannot
-				// do for a *[]byte location in safe code; append may write to the backing array only
-				continue
+			case *ssa.Call:
+				if _, isB := x.Common().Value.(*ssa.Builtin); !isB {
+					return nil
+				}
+				if bi := x.Common().Value.(*ssa.Builtin); bi.Name() == "copy" || bi.Name() == "append" || bi.Name() == "clear" || bi.Name() == "delete" {
+					// copy writes elements, not slice headers: a load of a slice header through a pointer is unaffected
+					// unless the destination aliases the memory holding the header, which a []byte destination cannot
+					// do for a *[]byte location in safe code; append may write to the backing array only
+					continue
+				}
 			}
 		}
+		if len(blk.Preds) != 1 || blk.Preds[0] == blk {
+			return nil
+		}
+		blk = blk.Preds[0]
+		idx = len(blk.Instrs)
 	}
 	return nil
 }
